@@ -259,7 +259,13 @@ fn tcp_batch(rng: &mut Rng, inst: &Instance, bufs: &mut Buffers) -> Result<Strin
         (got, timed_out)
     });
     // write with random segmentation
-    let mode = rng.below(4);
+    // the property's premise is that every request arrives within the server's 5 s read timeout:
+    // batches with boundary-length requests are written in large segments (tens of thousands of
+    // tiny writes take longer than that on a loaded machine), and a batch whose writing took more
+    // than 4 s is not judged
+    let big = stream_out.len() > 20_000;
+    let mode = if big { *rng.pick(&[0usize, 4, 4]) } else { rng.below(4) };
+    let write_started = std::time::Instant::now();
     let mut pos = 0;
     let mut segments = 0;
     while pos < stream_out.len() {
@@ -267,6 +273,7 @@ fn tcp_batch(rng: &mut Rng, inst: &Instance, bufs: &mut Buffers) -> Result<Strin
             0 => stream_out.len() - pos,
             1 => 1,
             2 => rng.range(1, 3),
+            4 => rng.range(4_000, 30_000),
             _ => rng.range(1, 700),
         }
         .min(stream_out.len() - pos);
@@ -286,7 +293,11 @@ fn tcp_batch(rng: &mut Rng, inst: &Instance, bufs: &mut Buffers) -> Result<Strin
     if !closes {
         let _ = sock.shutdown(Shutdown::Write);
     }
+    let write_took = write_started.elapsed();
     let (got, timed_out) = reader.join().map_err(|_| ("inconclusive".to_string(), "reader thread failed".to_string(), Json::Null))?;
+    if got != expected && write_took > Duration::from_secs(4) {
+        return Err(("inconclusive".into(), "writing the batch took longer than 4 s (the server's read timeout is 5 s)".into(), Json::Null));
+    }
     if timed_out {
         if got == expected {
             return Err(("tcp:connection-not-closed".into(), format!("all {} expected octets arrived but the connection was not closed within 8 s ({})", expected.len(), if closes { "after a request without response" } else { "after the client closed its side" }), w(&got)));
